@@ -616,7 +616,7 @@ class At5AirConditioner(pyairtouch.api.AirConditioner):
 
     @override
     async def set_mode(
-        self, mode: pyairtouch.api.AcMode, power_on: bool = False
+        self, mode: pyairtouch.api.AcMode, *, power_on: bool = False
     ) -> None:
         if mode not in self._supported_modes:
             raise ValueError(f"mode {mode} is not a supported mode")
